@@ -654,6 +654,10 @@ def run_check(pid, tier="quick", seed=0, replay=None, out=sys.stdout):
         "wall_s": round(wall, 2),
         "violations": len(violations),
     }
+    if ev["coverage"]["discharged"] == 0:
+        # proofs did not check in this run: do not present proof-level counts (schema: discharged >= 1)
+        ev["coverage"]["proof_status"] = "FAILED: %d obligation(s) not discharged" % ev["coverage"].pop("obligations")
+        ev["coverage"].pop("discharged")
     os.makedirs(os.path.join(VERIF, "evidence"), exist_ok=True)
     with open(os.path.join(VERIF, "evidence", pid + ".json"), "w") as f:
         json.dump(ev, f, indent=1, default=str)
